@@ -199,6 +199,9 @@ def c04_c05(ck, prop, tmp, n):
                         a = s["SO"]
                         b = min(hi - 1, s["SO"] + len(s["seq"]) + rng.choice([-1, 0, 1]))
                         b = max(a, b)
+                    elif mode < 0.6:  # a single base at the very start / end of the contig or of a node (0-0 for a reference contig)
+                        a = rng.choice([lo, lo, hi - 1, s["SO"], s["SO"] + len(s["seq"]) - 1])
+                        b = a
                     else:
                         a = rng.randrange(lo, hi)
                         b = rng.randrange(a, hi)
